@@ -547,6 +547,49 @@ def run(ctx):
         ctx.nontriv(lc)
 
     # ---------------------------------------------------------------------------------------------
+    # (c3): the list API (dovi_parse_rpu_bin_file -> handles -> dovi_write_rpu -> dovi_rpu_list_free) against
+    # parse_rpu_file + write_rpu and the model; every function called with a null pointer
+    # ---------------------------------------------------------------------------------------------
+    good = [b for b in valid if len(b) >= 25]
+    files = []
+    for i in range(160 if quick else 2500):
+        k = rng.choice([1, 1, 2, 3, 7, 20])
+        rp = [rng.choice(good) for _ in range(k)]
+        blob = b"".join(b"\x00\x00\x00\x01" + specgen.escape(x) for x in rp)
+        c = rng.below(8)
+        if c == 0:
+            blob = blob[: rng.below(len(blob) + 1)]                 # cut anywhere
+        elif c == 1:
+            blob = rpucases.mutate(rng, blob, 3, False)             # damaged entry: the whole file is an error
+        elif c == 2:
+            blob = b""
+        elif c == 3:
+            blob = blob + b"\x00" * rng.below(5)
+        files.append(blob)
+    ll = ["capi.list " + hx(b) for b in files]
+    rl2 = ["rpu.filelist " + hx(b) for b in files]
+    lo2 = common.run_lines_resilient_sharded(common.LIBCASE, ll, env=ENV)
+    ro2 = common.run_lines_resilient_sharded(common.LIBCASE, rl2, env=ENV)
+    mo2, _, _ = common.run_lines_sharded(common.MODEL_EXE, ll) if have_model else (["model-missing"] * len(ll), 0, "")
+    ctx.evaluations += len(ll) + 1
+    for b, l, c, r, m in zip(files, ll, lo2, ro2, mo2):
+        ctx.count("list: %s" % c.split(" ")[0].split(":")[0])
+        if r.startswith("panic") or r in ("abort", "timeout", "not-run"):
+            ctx.count("list filtered: Rust side says %s" % r.split(":")[0])
+            continue
+        if c != r:
+            ctx.oracle_fail({"op": "capi.list", "input": hx(b)[:6000], "observed": c[:600], "expected": "parse_rpu_file + write_rpu: " + r[:600],
+                             "shape": "abort" if c == "abort" else "list-differs-from-rust"})
+        if m != c:
+            ctx.disagree("capi.list", l[:3000], m[:600], c[:600])
+        if c.startswith("ok "):
+            ctx.nontriv(l)
+    nl = common.run_lines_resilient(common.LIBCASE, ["capi.nulls"], env=ENV)
+    if not nl or nl[0] != "ok file=1 err=1 hdr=1 map=1 dm=1 write=1 convert=-1":
+        ctx.oracle_fail({"op": "capi.nulls", "input": "-", "observed": (nl[0] if nl else "no output")[:300],
+                         "expected": "every entry point returns (null / -1) when handed a null pointer", "shape": "null-argument"})
+
+    # ---------------------------------------------------------------------------------------------
     # (d) a sample under valgrind (small in the quick tier)
     # ---------------------------------------------------------------------------------------------
     if valgrind_usable():
@@ -555,7 +598,8 @@ def run(ctx):
         seq_done = [l for l, c in zip(seq_lines, so) if c.startswith("ok ")]
         k = 1 if quick else 8
         sample = ok_views[:: max(1, len(ok_views) // (250 * k))][: 250 * k] + err_views[: 50 * k] + \
-            seq_done[:: max(1, len(seq_done) // (150 * k))][: 150 * k]
+            seq_done[:: max(1, len(seq_done) // (150 * k))][: 150 * k] + \
+            [l for l, c in zip(cl, co) if c.startswith("ok ")][: 60 * k] + ll[: 40 * k] + ["capi.nulls"]
         try:
             r = subprocess.run(["valgrind", "-q", "--error-exitcode=9", "--leak-check=full",
                                 "--errors-for-leak-kinds=definite,indirect", common.LIBCASE],
@@ -568,7 +612,7 @@ def run(ctx):
         ctx.evaluations += len(sample)
         ctx.count("valgrind sample", len(sample))
         if rc != 0:
-            ctx.oracle_fail({"op": "valgrind", "input": "%d sampled capi.view / capi.seq lines" % len(sample),
+            ctx.oracle_fail({"op": "valgrind", "input": "%d sampled capi.view / capi.seq / capi.seqview / capi.list lines" % len(sample),
                              "observed": err[-3000:], "expected": "no invalid free/read, no definite leak", "shape": "valgrind"})
     else:
         ctx.notes.append("valgrind is not usable on the executor binary here: the heap check is process survival only")
@@ -590,6 +634,10 @@ def replay(ctx, path):
         lines = ["capi.seq " + inp, "rpu.ops3 " + inp]
     elif op in ("capi.seqview", "rpu.ops3json"):
         lines = ["capi.seqview " + inp, "rpu.ops3json " + inp]
+    elif op == "capi.list":
+        lines = ["capi.list " + inp, "rpu.filelist " + inp]
+    elif op == "capi.nulls":
+        lines = ["capi.nulls", "capi.nulls"]
     else:
         print("nothing to replay for op %r" % op)
         return 2
@@ -597,8 +645,10 @@ def replay(ctx, path):
     for l, o in zip(lines, out):
         print(l[:200])
         print("  -> " + o[:2000])
-    if op == "capi.seq":
+    if op in ("capi.seq", "capi.list"):
         return 0 if len(out) == 2 and out[0] == out[1] else 1
+    if op == "capi.nulls":
+        return 0 if out and out[0] == "ok file=1 err=1 hdr=1 map=1 dm=1 write=1 convert=-1" else 1
     if op in ("capi.seqview", "rpu.ops3json"):
         pc, pr = out[0].split(" ", 3), out[1].split(" ", 3)
         if len(pc) < 4 or len(pr) < 4 or pc[:3] != pr[:3]:
